@@ -10,6 +10,7 @@ CONSTANTS
   B = 2  TXMax = 2
   Inline = TRUE  BatchTX = TRUE  Drops = FALSE
   ScrubTxLen = TRUE  ResetRawSA = TRUE  BothOnHandoff = FALSE
+  ClearHdr = TRUE  TruncRelease = TRUE
   ResetSlot = FALSE  Opts <- OCookie
 SPECIFICATION Spec
 SYMMETRY SymClients
